@@ -139,6 +139,8 @@ def tasks(tier, seed):
     for key in PVV_KEYS[3:]:
         for pl in (4, 5, 12):
             cases.append({'kind': 'pvv', 'pin': digits(pl, seed, 0), 'pan': digits(16, seed, 9), 'idx': 1, 'key': key})
+    pvv_cases = cases
+    cases = []
     # key management
     for n in (1, 2, 3):
         for parts in itertools.product(range(len(COMPONENTS)), repeat=n):
@@ -150,7 +152,28 @@ def tasks(tier, seed):
         for ln in (4, 6, 16):
             cases.append({'kind': 'kcv', 'key': key, 'len': ln, 'explicit': True})
         cases.append({'kind': 'kcv', 'key': key, 'len': 6})
-    ts = [{'cases': ch} for ch in core.spread(cases, 64)]
+    # sequences whose members share parts of their inputs (same component SET in another order / multiplicity,
+    # same PIN and PAN under another key or index): a result remembered under too coarse a key shows here
+    seq = []
+    for a, b in itertools.permutations(range(len(COMPONENTS)), 2):
+        for parts in ([a, b], [a, b, a], [b], [a, b, b], [a], [b, a], [a, a], [a, b]):
+            seq.append({'kind': 'zmk', 'parts': parts})
+            seq.append({'kind': 'enc_zmk', 'parts': parts, 'master': MASTER_KEYS[(a + b) % 3]})
+            seq.append({'kind': 'enc_zmk', 'parts': parts, 'master': MASTER_KEYS[(a + b + 1) % 3]})
+    pin, pan = digits(6, seed, 4), digits(16, seed, 6)
+    for key in PVV_KEYS:
+        for idx in (1, 2, 1):
+            seq.append({'kind': 'pvv', 'pin': pin, 'pan': pan, 'idx': idx, 'key': key})
+            seq.append({'kind': 'pvv', 'pin': pin[:4] + '99', 'pan': pan, 'idx': idx, 'key': key})
+            seq.append({'kind': 'pvv', 'pin': pin, 'pan': '9' + pan[1:], 'idx': idx, 'key': key})
+            seq.append({'kind': 'pvv', 'pin': pin, 'pan': pan[:-1] + '0', 'idx': idx, 'key': key, 'via': 'iso0'})
+    for key in COMPONENTS + MASTER_KEYS:
+        for ln in (6, 4, 16, 6):
+            seq.append({'kind': 'kcv', 'key': key, 'len': ln, 'explicit': True})
+    ts = [{'cases': ch} for ch in core.chunks(pvv_cases, 60)]
+    ts.append({'cases': cases})          # all key-management cases in one task, in enumeration order
+    ts.append({'cases': seq})
+    ts.append({'cases': list(reversed(seq))})
     for k in range(0, 5):
         for ki in ((0, 1, 2) if tier == 'thorough' else (k % 3,)):
             ts.append({'vector': k, 'key': PVV_KEYS[ki], 'seed': seed})
